@@ -204,11 +204,22 @@ Apply(s, e) ==
 (* Ghosts, from the observed (s, e, t) only: every class / token id seen so
    far, and whether the id generated by the last event had been seen before *)
 AllMTs(t) == UNION {DOMAIN t.mts[c] : c \in DOMAIN t.mts}
-GhostInit == [everD |-> {}, everM |-> {}, reused |-> FALSE, handed |-> {}, exOwner |-> {}, exHolder |-> {}]
-GhostOf(t) == [everD |-> DOMAIN t.cls, everM |-> AllMTs(t), reused |-> FALSE, handed |-> {}, exOwner |-> {}, exHolder |-> {}]
+(* hown (audit after round 7; read by the C15_Hist* clauses): the owner of every
+   class according to the ACCEPTED MESSAGES - the sender of the accepted issue
+   that generated the id, then the recipient of every accepted handover - never
+   what the class record says.  Starts from the state a history starts in. *)
+GhostInit == [everD |-> {}, everM |-> {}, reused |-> FALSE, handed |-> {}, exOwner |-> {}, exHolder |-> {},
+              hown |-> EmptyF]
+GhostOf(t) == [everD |-> DOMAIN t.cls, everM |-> AllMTs(t), reused |-> FALSE, handed |-> {}, exOwner |-> {}, exHolder |-> {},
+               hown |-> [c \in DOMAIN t.cls |-> t.cls[c].owner]]
 
 IsIssue(e) == e.name = "IssueDenom" /\ e.ok
 IsMintNew(e) == e.name = "MintMT" /\ e.ok /\ e.id = ""
+
+HistOwn(hown, e) ==
+  IF IsIssue(e) THEN Put(hown, e.gen, e.who)
+  ELSE IF e.name = "TransferDenom" /\ e.ok /\ e.cls \in DOMAIN hown THEN [hown EXCEPT ![e.cls] = e.to]
+  ELSE hown
 
 GhostStep(g, s, e, t) ==
   [everD |-> g.everD \cup DOMAIN t.cls \cup (IF IsIssue(e) THEN {e.gen} ELSE {}),
@@ -216,7 +227,8 @@ GhostStep(g, s, e, t) ==
    reused |-> \/ IsIssue(e) /\ e.gen \in (g.everD \cup DOMAIN s.cls)
               \/ IsMintNew(e) /\ e.gen \in (g.everM \cup AllMTs(s)),
    handed |-> g.handed \cup {c \in DOMAIN s.cls : c \in DOMAIN t.cls /\ t.cls[c].owner # s.cls[c].owner},
-   exOwner |-> g.exOwner, exHolder |-> g.exHolder]
+   exOwner |-> g.exOwner, exHolder |-> g.exHolder,
+   hown |-> HistOwn(g.hown, e)]
 (* coverage ghosts, maintained by the trace specification only (never read by a
    clause): <<c, a>>: a owned class c before; <<a, c, m>>: a held token (c, m) before *)
 CovStep(g, s, e, t) ==
@@ -319,6 +331,25 @@ C15_FreshIds(s, e, t, g) ==
 
 Rejected_NoEffect(s, e, t) ==
   (~e.ok \/ e.name = "EndBlock") => t = s
+
+(***************************************************************************)
+(* The authority statement judged from the HISTORY (audit after round 7).   *)
+(* C15_Authority reads "the owner of a class" from the class record; a      *)
+(* defect that writes that record wrongly (an issue that records another    *)
+(* owner, a handover that records somebody else than the named recipient)   *)
+(* makes it equally wrong on both sides.  Here the owner is the one the     *)
+(* accepted messages made (ghost hown): g = the ledger BEFORE the event in  *)
+(* C15_HistAuthority, AFTER it in C15_HistOwner.                            *)
+(***************************************************************************)
+(* an accepted mint (new or existing token) / edit / handover comes from the
+   account the accepted messages made the owner of the class *)
+C15_HistAuthority(e, g) ==
+  (e.name \in {"MintMT", "EditMT", "TransferDenom"} /\ e.ok) =>
+    e.cls \in DOMAIN g.hown /\ g.hown[e.cls] = e.who
+(* every class is in the hands the accepted messages put it in: its issuer's,
+   or the named recipient's of its last accepted handover *)
+C15_HistOwner(t, g) ==
+  \A c \in DOMAIN g.hown : HasDenom(t, c) /\ t.cls[c].owner = g.hown[c]
 
 (***************************************************************************)
 (* The same statements on the RAW STORE (round 7).  The harness scans the   *)
@@ -483,6 +514,8 @@ Act_C15_Range == [][C15_Range(st, ev', st')]_vars
 Act_C15_Authority == [][C15_Authority(st, ev', st')]_vars
 Act_C15_FreshIds == [][C15_FreshIds(st, ev', st', gh')]_vars
 Act_Rejected_NoEffect == [][Rejected_NoEffect(st, ev', st')]_vars
+Act_C15_HistAuthority == [][C15_HistAuthority(ev', gh)]_vars
+Inv_C15_HistOwner == C15_HistOwner(st, gh)
 Act_X15_Records == [][X15_Records(st, ev', st')]_vars
 Act_X15_Fidelity == [][X15_Fidelity(st, ev', st')]_vars
 
